@@ -142,7 +142,12 @@ def build_dumps(decls: List[Decl], tag: str, features=()) -> DumpResult:
     for d in decls:
         p = os.path.join(dump_dir, d.name + '.rs')
         if not os.path.exists(p):
-            raise Undecided('no dump for %s (%s): hook not active?' % (d.id, p))
+            if d.id in res.rustc_rejected:
+                # the macro panicked (no token stream was returned): a compile-time rejection
+                with open(p, 'w') as f:
+                    f.write('// no expansion: the macro aborted\ncompile_error!{%s}\n' % json.dumps(res.rustc_rejected[d.id][:300]))
+            else:
+                raise Undecided('no dump for %s (%s): hook not active?' % (d.id, p))
         files.append(p)
         res.raw[d.id] = open(p).read()
     for i in range(0, len(files), 40):
